@@ -119,6 +119,20 @@ def scaled_batches(ctx, n):
         ctx.case(desc)
         ctx.count(f"scaled:{len(shape)}axes:{'small' if scale < 0.1 else 'unit'}:{'big' if cnt >= 64 else 'small'}")
         exact_inv = np.array([np.linalg.inv(m) for m in mats]).reshape(shape + (nn, nn)) / scale
+        if scale == 1.0:
+            # the same stack with an INTEGER dtype (determinants and cofactors are integers of modulus > 1): inverse, adjugate and det
+            Ai = np.array(mats, dtype=np.int64).reshape(shape + (nn, nn))
+            ii = call_impl(gu.inv, Ai)
+            ai = call_impl(gu.adjugate, Ai)
+            di = call_impl(gu.det, Ai)
+            ctx.count("scaled:int-dtype")
+            dets = np.array([round(np.linalg.det(m)) for m in mats], dtype=float).reshape(shape)
+            ok = ii[0] == "ok" and np.allclose(np.asarray(ii[1], dtype=float), exact_inv, rtol=1e-9, atol=1e-12)
+            ok = ok and ai[0] == "ok" and np.allclose(np.asarray(ai[1], dtype=float), exact_inv * dets[..., None, None], rtol=1e-9, atol=1e-9)
+            ok = ok and di[0] == "ok" and np.allclose(np.asarray(di[1], dtype=float), dets, rtol=1e-9, atol=1e-9)
+            if not ok:
+                ctx.disagree(f"C20:int-batch:n{nn}:{'big' if cnt >= 64 else 'small'}", desc + " as int64", "exact inverse / adjugate / determinant",
+                             "values differ" if ii[0] == "ok" and ai[0] == "ok" and di[0] == "ok" else (ii[1:3], ai[1:3], di[1:3]), replay=[desc])
         i = call_impl(gu.inv, A)
         if i[0] != "ok" or not np.allclose(i[1], exact_inv, rtol=1e-7, atol=1e-9 / scale):
             ctx.disagree(f"C20:inv:scaled:{len(shape)}axes", desc, "inverse of every (regular) matrix", i[1:3] if i[0] != "ok" else "values differ", replay=[desc])
